@@ -67,103 +67,7 @@ func runC19(c *Ctx) {
 	R.Rule("closed-aware", "queued receivers accumulate a received value only on the true edge of its comma-ok and return what they have on the false edge", 2)
 	R.Rule("non-blocking", "queued receivers receive only in a select with a default arm that returns the accumulated result; loop bounded by the limit; consecutive positions", 2)
 
-	// ---- senders
-	for _, s := range []struct {
-		name       string
-		ch, val    int
-		timeoutArg int
-	}{{"chans.SendTimeout", 0, 1, 2}, {"chans.SendContext", 1, 2, -1}} {
-		rule := "arm-table"
-		fi := c.fn(rule, s.name)
-		ps := c.paths(rule, fi)
-		if ps == nil {
-			continue
-		}
-		ch, val := paramOf(fi, s.ch), paramOf(fi, s.val)
-		ok, why := true, ""
-		sawT, sawF := false, false
-		for _, p := range ps {
-			n := 0
-			for i := range p.Events {
-				e := &p.Events[i]
-				if e.Kind == "send" {
-					if e.Addr.Key() == ch.Key() && e.Val.Key() == val.Key() {
-						n++
-					} else {
-						ok, why = false, "sends something else: "+e.String()
-					}
-				}
-				if e.Kind == "recv" && e.Addr.Key() == ch.Key() {
-					ok, why = false, "receives from the channel it should send to"
-				}
-			}
-			for _, a := range armsOf(p) {
-				st := a.instr.States[a.arm]
-				if st.Dir == 1 { // SendOnly
-					if a.sel.Args[a.arm].Key() == ch.Key() && a.ev.Args[a.arm] != nil && a.ev.Args[a.arm].Key() == val.Key() {
-						n++
-					} else {
-						ok, why = false, "a select arm sends something else"
-					}
-				}
-			}
-			if p.End == EndLoopBack {
-				ok, why = false, "loops"
-				continue
-			}
-			if p.End != EndReturn || len(p.Rets) != 1 {
-				ok, why = false, "a path does not return one value"
-				continue
-			}
-			if n > 1 {
-				ok, why = false, "a path sends the value more than once: "+p.CondString()
-				continue
-			}
-			r := p.Rets[0]
-			if n == 1 {
-				sawT = true
-				if !r.IsConst("true") {
-					ok, why = false, "a path that handed the value over does not return the constant true (returns "+r.String()+")"
-				}
-			} else {
-				sawF = true
-				if !r.IsConst("false") {
-					ok, why = false, "a path that did not send returns "+r.String()
-				}
-				// with a non-positive timeout there must be no limit: no untransferred path
-				if s.timeoutArg >= 0 {
-					for _, cd := range p.Conds {
-						rl := cd.Rel()
-						if rl.B != nil && isParam(rl.A, s.timeoutArg) && rl.B.IsConst("0") && (rl.Op == "<=" || rl.Op == "<" || rl.Op == "==") {
-							ok, why = false, "a non-positive timeout can give up without sending"
-						}
-					}
-				}
-			}
-		}
-		if ok && !(sawT && sawF) {
-			ok, why = false, "missing the sent or the not-sent row"
-		}
-		if ok && s.timeoutArg >= 0 {
-			// some path must be decided by timeout <= 0 and send un-timed
-			found := false
-			for _, p := range ps {
-				for _, cd := range p.Conds {
-					rl := cd.Rel()
-					if rl.B != nil && isParam(rl.A, s.timeoutArg) && rl.B.IsConst("0") && rl.Op == "<=" && len(armsOf(p)) == 0 {
-						found = true
-					}
-				}
-			}
-			if !found {
-				ok, why = false, "no un-timed path for a non-positive timeout"
-			}
-		}
-		o := R.Decide(ok, rule, fi.Name, "send", c.pos(fi), "true exactly on the paths that performed the one send; false exactly on the others", why)
-		if !ok {
-			o.Breaks = "a value reported unsent was delivered, or the reverse"
-		}
-	}
+	c19Senders(c, "arm-table", false)
 	// ---- receivers
 	for _, s := range []struct {
 		name       string
@@ -437,5 +341,109 @@ func runC19(c *Ctx) {
 			oc.Breaks = "a closed, drained channel pads the result with zero values"
 		}
 		R.Decide(okNB, "non-blocking", fi.Name, "loop", c.pos(fi), "bounded loop over a select with default; values kept in receive order at consecutive positions", whyN)
+	}
+}
+
+// c19Senders decides the send helpers' result tables; C10 re-uses the SendTimeout row, on which its
+// delivered-or-timed-out dichotomy rests.
+func c19Senders(c *Ctx, rule string, onlyTimeout bool) {
+	R := c.R
+	for _, s := range []struct {
+		name       string
+		ch, val    int
+		timeoutArg int
+	}{{"chans.SendTimeout", 0, 1, 2}, {"chans.SendContext", 1, 2, -1}} {
+		if onlyTimeout && s.timeoutArg < 0 {
+			continue
+		}
+		fi := c.fn(rule, s.name)
+		ps := c.paths(rule, fi)
+		if ps == nil {
+			continue
+		}
+		ch, val := paramOf(fi, s.ch), paramOf(fi, s.val)
+		ok, why := true, ""
+		sawT, sawF := false, false
+		for _, p := range ps {
+			n := 0
+			for i := range p.Events {
+				e := &p.Events[i]
+				if e.Kind == "send" {
+					if e.Addr.Key() == ch.Key() && e.Val.Key() == val.Key() {
+						n++
+					} else {
+						ok, why = false, "sends something else: "+e.String()
+					}
+				}
+				if e.Kind == "recv" && e.Addr.Key() == ch.Key() {
+					ok, why = false, "receives from the channel it should send to"
+				}
+			}
+			for _, a := range armsOf(p) {
+				st := a.instr.States[a.arm]
+				if st.Dir == 1 { // SendOnly
+					if a.sel.Args[a.arm].Key() == ch.Key() && a.ev.Args[a.arm] != nil && a.ev.Args[a.arm].Key() == val.Key() {
+						n++
+					} else {
+						ok, why = false, "a select arm sends something else"
+					}
+				}
+			}
+			if p.End == EndLoopBack {
+				ok, why = false, "loops"
+				continue
+			}
+			if p.End != EndReturn || len(p.Rets) != 1 {
+				ok, why = false, "a path does not return one value"
+				continue
+			}
+			if n > 1 {
+				ok, why = false, "a path sends the value more than once: "+p.CondString()
+				continue
+			}
+			r := p.Rets[0]
+			if n == 1 {
+				sawT = true
+				if !r.IsConst("true") {
+					ok, why = false, "a path that handed the value over does not return the constant true (returns "+r.String()+")"
+				}
+			} else {
+				sawF = true
+				if !r.IsConst("false") {
+					ok, why = false, "a path that did not send returns "+r.String()
+				}
+				// with a non-positive timeout there must be no limit: no untransferred path
+				if s.timeoutArg >= 0 {
+					for _, cd := range p.Conds {
+						rl := cd.Rel()
+						if rl.B != nil && isParam(rl.A, s.timeoutArg) && rl.B.IsConst("0") && (rl.Op == "<=" || rl.Op == "<" || rl.Op == "==") {
+							ok, why = false, "a non-positive timeout can give up without sending"
+						}
+					}
+				}
+			}
+		}
+		if ok && !(sawT && sawF) {
+			ok, why = false, "missing the sent or the not-sent row"
+		}
+		if ok && s.timeoutArg >= 0 {
+			// some path must be decided by timeout <= 0 and send un-timed
+			found := false
+			for _, p := range ps {
+				for _, cd := range p.Conds {
+					rl := cd.Rel()
+					if rl.B != nil && isParam(rl.A, s.timeoutArg) && rl.B.IsConst("0") && rl.Op == "<=" && len(armsOf(p)) == 0 {
+						found = true
+					}
+				}
+			}
+			if !found {
+				ok, why = false, "no un-timed path for a non-positive timeout"
+			}
+		}
+		o := R.Decide(ok, rule, fi.Name, "send", c.pos(fi), "true exactly on the paths that performed the one send; false exactly on the others", why)
+		if !ok {
+			o.Breaks = "a value reported unsent was delivered, or the reverse"
+		}
 	}
 }
